@@ -645,16 +645,20 @@ theorem dispatch_ignore (word : Str) (hb : Bool) (c : ClsDesc) (h : dispatch wor
     have := congrArg String.toList this
     simpa using this
 
+/-- `noIgnoreLine` as a predicate of the hereditary walk -/
+abbrev niq : Str → Bool → Bool := fun s _ => noIgnoreLine s
+
 /-- the C02 instance of the hereditary specification -/
-theorem hspec_legal : HSpec noIgnoreLine (fun l => legalLine l = true) where
+theorem hspec_legal : HSpec niq (fun l => legalLine l = true) where
   nonblank := by
-    intro s h
+    intro s _ h
+    simp only [niq] at h
     unfold noIgnoreLine at h
     split at h
     · cases h
     · rename_i heq; rw [heq]; simp
   emit := by
-    intro ctx content word arg block cl _ hsplit hd line st name items st' hpre a ha st2 rc hrc
+    intro ctx content word arg block cl _ hsplit hd _ _ line st name items st' hpre a ha st2 rc hrc
     exact emit_legal ctx content word arg block cl hsplit hd line st name items st' hpre a ha st2 rc hrc
   blockDone := by
     intro ctx content word arg block cl hq hsplit hd hblk line st o hpre l hl
@@ -662,6 +666,7 @@ theorem hspec_legal : HSpec noIgnoreLine (fun l => legalLine l = true) where
     · rw [h] at hl; cases hl
     · exfalso
       have hu := dispatch_ignore word _ cl hd h
+      simp only [niq] at hq
       unfold noIgnoreLine at hq
       rw [hsplit] at hq
       simp [hu] at hq
